@@ -28,6 +28,9 @@ def S1(ctx):
         if w["kind"] == "borrow_mut" and not w["exact"]:
             continue
         n += 1
+        if is_reinit_write(prog, w, T, "state", T + "::new"):
+            ctx.ok("S1", w["fn"], "re-initialises Thread.state to the constructor's value between iterations", [site_str(prog, w["fn"], w["bb"])])
+            continue
         if w["fn"] in STATE_SETTERS:
             ctx.ok("S1", w["fn"], "writes Thread.state (%s)" % w["kind"], [site_str(prog, w["fn"], w["bb"])])
         else:
@@ -140,6 +143,9 @@ def _object_eq_guard(prog, body, bb, recv_canon):
     for (kind, pol, e, same, val) in operation_guards(body, bb, recv_canon):
         if kind == "eq" and pol is True and same:
             txt = canon(e)
+            if "erase" not in txt:
+                # the erased reference may have been hoisted out of the closure (captured variable) or computed by a helper
+                txt = canon(deep(prog, body.fn.key, e))
             if "erase" in txt and ("object" in txt or "{closure" in txt):
                 return e
     return None
@@ -178,7 +184,8 @@ def S3(ctx):
                         "blocked (its pending `operation`): a thread blocked on a lock, join or recv is woken although "
                         "the resource is unavailable", site_str(prog, s["fn"], s["bb"]))
             continue
-        if anchor == EXEC + "::schedule":
+        if enclosing_fn(anchor) == EXEC + "::schedule":
+            anchor = EXEC + "::schedule"
             atoms = guard_atoms(body, s["bb"])
             if any(mentions_call(e, "rt::thread::Thread::is_yield") and pol is True for (e, pol, v, sb) in atoms):
                 ctx.ok("S3", anchor, "re-activation only of Yield threads", [site_str(prog, s["fn"], s["bb"])])
@@ -351,6 +358,8 @@ def S4(ctx):
             fnk = enclosing_fn(wr["fn"])
             if fnk in allowed_direct:
                 continue
+            if a == T and is_reinit_write(prog, wr, T, f, T + "::new"):
+                continue            # reset between iterations to the constructor's value
             offenders.append(wr)
     # the token is overwritten by every *caller* of those writer functions, too: list them
     if offenders:
